@@ -41,7 +41,7 @@ CLAIMS = {
     "C07": ("histsim", "exploration",
             "deterministic simulation: seeded pickle/rebuild histories + restart into a fresh interpreter under another PYTHONHASHSEED",
             "Seeded search over moments of serialization in a collection's life; rebuilt-in-process, rebuilt-in-fresh-interpreter and unpickled collections must agree on name, keys, chunks, dtype, Frisky output keys (and optimized graph keys for rebuilds) and values. Sampling, not proof.",
-            TB + "lock=True sources, untokenizable sources and parents of random arrays are compared per instance only, as the statement exempts them. Known finding F12.", "DESIGN.md 5/C07"),
+            TB + "lock=True sources, untokenizable sources and parents of random arrays are compared per instance only, as the statement exempts them. Known finding F12 (masked source of any dtype + unpickled copy alive + in-process rebuild: other name or other optimized graph keys), matched by precondition + ablation.", "DESIGN.md 5/C07"),
     "C09": ("histsim", "exploration",
             "deterministic simulation: seeded interleavings of build/compute with planner-config flips, drops, GC and cache evictions against a pristine oracle",
             "Seeded search over histories and configuration flips; every compute must equal the value of the same program built alone under default configuration after a state reset. Sampling, not proof.",
@@ -57,7 +57,7 @@ CLAIMS = {
     "C17": ("histsim", "exploration",
             "deterministic simulation: seeded policy/limit flips around the shared lowering cache; layout clauses checked at every materialisation",
             "History x configuration part only: which policy's layout a materialisation gets must be the policy in effect, whatever was lowered before. The pure 'for all operand sets' core of the statement is not claimed.", 
-            TB + "Only Elemwise root/nested pairs whose raw<->lowered correspondence is positional are checked; others are skipped and counted.", "DESIGN.md 5/C17"),
+            TB + "Only Elemwise root/nested pairs whose raw<->lowered correspondence is positional are checked; others are skipped and counted. Known finding F19 (expression constructed under one unify-chunks policy/limit and materialised under another) matched by a fresh-rebuild ablation that keeps the flips and the lowering cache.", "DESIGN.md 5/C17"),
     "C21": ("schedsim", "exploration",
             "deterministic simulation: records executor over every walk order of the shared seen set, seeded execution orders",
             "For groups of 1-4 collections every permutation of walk order (exhaustive per group) and both protocols; records must be well-formed, complete, define every output key and execute to the dask graph's block values. Groups and programs are sampled.",
